@@ -3,6 +3,7 @@ import BppModel.Prelude.Scalar
 import BppModel.Text.StrLite
 import BppModel.Text.Number
 import BppModel.Text.Glob
+import BppModel.Text.Keyval
 /-
 Driver for C17 (round trips and exact grammars).  Stateless: every op carries its inputs.
 Strings are hex-escaped; the implementation's doubles arrive as 16 hex digits, the model's
@@ -62,6 +63,23 @@ def numVerdict (dec sci : Char) (s : Str) (impl : Option (List String)) : String
         | some p => if iintv == toString (Number.clampInt p.value) then "ok" else "FAIL:toInt_value"
   | some _ => "FAIL:parse"
 
+def showMap (m : Keyval.Map) : String :=
+  toString m.length ++ String.join (m.map (fun kv => " " ++ hex kv.1 ++ " " ++ hex kv.2))
+
+/-- `k1 v1 k2 v2 …` (hex) -/
+def parsePairs : List String → Option (List (Str × Str))
+  | [] => some []
+  | k :: v :: rest =>
+    match unhex k, unhex v, parsePairs rest with
+    | some k, some v, some r => some ((k, v) :: r)
+    | _, _, _ => none
+  | _ => none
+
+def implIs (impl : Option (List String)) (want : String) (clause : String) : String :=
+  match impl with
+  | none => "-"
+  | some t => if " ".intercalate t == want then "ok" else "FAIL:" ++ clause
+
 def step (s : Unit) (op : List String) (impl : Option (List String)) : Unit × String × String :=
   match op with
   | ["num", hs, hd, hc] =>
@@ -94,6 +112,70 @@ def step (s : Unit) (op : List String) (impl : Option (List String)) : Unit × S
         | some _ => "FAIL:parse"
       (s, m ++ " " ++ m ++ " " ++ m, verdict)
     | _, _ => (s, "bad-op", "-")
+  | ["kv.single", hd, hsp] =>
+    match unhex hd, unhex hsp with
+    | some d, some sp =>
+      let out := match Keyval.singleKeyval d sp with
+        | some (k, v) => hex k ++ " " ++ hex v
+        | none => "exc:bpp"
+      (s, out, "-")
+    | _, _ => (s, "bad-op", "-")
+  | ["kv.multi", hd, hsp, nst] =>
+    match unhex hd, unhex hsp with
+    | some d, some sp =>
+      let out := match Keyval.multipleKeyvals d [] sp (nst == "1") with
+        | some m => showMap m
+        | none => "exc:bpp"
+      (s, out, "-")
+    | _, _ => (s, "bad-op", "-")
+  | ["kv.parse", hd] =>
+    match unhex hd with
+    | some d =>
+      let out := match Keyval.parseProcedure d with
+        | some (name, m) => hex name ++ " " ++ showMap m
+        | none => "exc:bpp"
+      (s, out, "-")
+    | _ => (s, "bad-op", "-")
+  | "kv.rt" :: hname :: n :: rest =>
+    match unhex hname, nat? n, parsePairs rest with
+    | some name, some n, some kvs =>
+      if kvs.length != n then (s, "bad-op", "-") else
+      let desc := Keyval.render name kvs
+      let out := match Keyval.parseProcedure desc with
+        | some (nm, m) => hex desc ++ " " ++ hex nm ++ " " ++ showMap m
+        | none => "exc:bpp"
+      -- parse_render: under the theorem's side conditions the parse gives back name and map
+      let verdict :=
+        if Keyval.NameOk name && kvs.all Keyval.PairOk then
+          implIs impl (hex desc ++ " " ++ hex name ++ " " ++ showMap (Keyval.mapOfList kvs)) "parse_render"
+        else "-"
+      (s, out, verdict)
+    | _, _, _ => (s, "bad-op", "-")
+  | "kv.crt" :: hname :: n :: rest =>
+    match unhex hname, nat? n with
+    | some name, some n =>
+      match parsePairs (rest.take (2 * n)), parsePairs ((rest.drop (2 * n)).drop 1) with
+      | some kvs, some news =>
+        let newkv := Keyval.mapOfList news
+        let desc := Keyval.render name kvs
+        let out := match Keyval.changeKeyvals desc newkv [','] true with
+          | some d' => hex d'
+          | none => "exc:bpp"
+        let verdict :=
+          if Keyval.NameOk name && kvs.all Keyval.PairOk then
+            implIs impl (hex (Keyval.render name (Keyval.substArgs newkv kvs))) "changeKeyvals_exact"
+          else "-"
+        (s, out, verdict)
+      | _, _ => (s, "bad-op", "-")
+    | _, _ => (s, "bad-op", "-")
+  | "kv.change" :: hd :: hsp :: nst :: _n :: rest =>
+    match unhex hd, unhex hsp, parsePairs rest with
+    | some d, some sp, some news =>
+      let out := match Keyval.changeKeyvals d (Keyval.mapOfList news) sp (nst == "1") with
+        | some d' => hex d'
+        | none => "exc:bpp"
+      (s, out, "-")
+    | _, _, _ => (s, "bad-op", "-")
   | _ => (s, "bad-op", "-")
 
 def machine : Machine Unit := { init := fun _ => (), step := step }
